@@ -20,11 +20,15 @@ PROP = 'C03'
 LEAN_MODULES = ['Femio.Props.C03']
 THEOREMS = ['C03_boundary_roundtrip', 'C03_spring_roundtrip', 'C03_cload_roundtrip', 'C03_fixtemp_roundtrip',
             'C03_cflux_roundtrip', 'C03_group_expansion', 'C03_solution_type', 'C03_solution_type_known',
-            'C03_boundary_dof_gt3_lost', 'C03_line_roundtrip']
+            'C03_boundary_dof_gt3_lost', 'C03_line_roundtrip',
+            'C03_file_roundtrip', 'C03_roundtrip', 'C03_cflux_both_merged']
 PARTIAL = [
-    'the per-kind theorems are stated on the section level (rows of a section -> table); that the sections of a whole '
-    'written control file are found again by the header scan (toBlocks / extractData on writeCnt) is covered by the '
-    'correspondence, not by a theorem',
+    'C03_file_roundtrip / C03_roundtrip (whole control file: readCnt ng (writeCnt c) = expectedCnt c, prescription sets '
+    'per kind + solution type, every node-group map) are over the model of write_cnt at default settings (CntIn: '
+    'solution type, only-solid flag, the six optional sections; boilerplate lines as transcribed) and its well-formed '
+    'inputs WFCnt (\\w+ solution type, 3-wide tables, boundary / cload not all-NaN, not both cflux kinds - '
+    'C03_cflux_both_merged says what the reader does then); group-addressed rows never occur in a written file, so '
+    'node-group expansion stays a section-level theorem (C03_group_expansion)',
     'decimal <-> binary rounding of %.5E / %E / %.12E and float() is runtime (trusted: correctly rounded)',
 ]
 RULE = ('seeded generator: a combinatorial mesh as in C01 (arbitrary ids / order / types); solution type STATIC or HEAT; '
